@@ -227,7 +227,16 @@ def run(ctx):
         "no involute surface (reader hits CELER_ASSERT_UNREACHABLE)",
     ]
     # 1. translator: keys used by the source -> coq/Generated/C19_keys.v
-    tr = json_keys.generate(vlib.REPO, os.path.join(vlib.COQDIR, "Generated", "C19_keys.v"))
+    gen_v = os.path.join(vlib.COQDIR, "Generated", "C19_keys.v")
+    try:
+        tr = json_keys.generate(vlib.REPO, gen_v)
+    except Exception as e:   # unrecognised source shape must be a broken tie, not a crash
+        tr = {"keys": {}, "problems": ["translator raised %s: %s" % (type(e).__name__, e)]}
+        empty = {"keys": {}, "names": [], "arity": [], "visit": [], "logic_chars": "", "tok_order": [],
+                 "logic_read": [], "zorder_write": [], "zorder_read": [], "transform_sizes": []}
+        os.makedirs(os.path.dirname(gen_v), exist_ok=True)
+        with open(gen_v, "w") as f:
+            f.write(json_keys.render(empty))
     ctx.coverage["translator"] = {"structs": sorted(tr["keys"]), "problems": tr["problems"]}
     if tr["problems"]:
         ctx.violation("tie-broken", "translators/json_keys.py no longer recognises the source shape: %s" % "; ".join(tr["problems"])[:300],
@@ -250,6 +259,7 @@ def run(ctx):
 
     found_input = False
     ndis = 0
+    nrt = 0
 
     def report_dis(kind, what, replay):
         nonlocal ndis
@@ -332,6 +342,9 @@ def run(ctx):
         if bad and (wfb or "crash" in res):
             # a concrete failing input inside the theorem's domain (or UB)
             found_input = True
+            nrt += 1
+            if nrt > 5 and not (has_involute(x) and "crash" in res):
+                continue
             ctx.violation("round-trip", "generated input does not survive the JSON round trip: %s" % bad,
                           {"input_D_form": x, "observed": bad, "model_wf": wfb, "oddities": odd,
                            "gallina": L.g_input(x)},
@@ -381,3 +394,4 @@ def run(ctx):
                             "distinct by full input")
     ctx.coverage["traces_validated_against_impl"] = len(fidx) + len(gcases) + len(lcases)
     ctx.coverage["disagreements"] = ndis
+    ctx.coverage["generated_inputs_failing_round_trip"] = nrt
